@@ -25,26 +25,34 @@ def run(ctx: Ctx) -> None:
     ord_pack(ctx, 'C03.R1')
     ctx.floor('C03.R1', 17)
 
+    from ..pattern import body_is, has
+
     beta = prog.cls('expressions.beta_parameters', 'Beta')
     f = beta.methods['change_init_values']
     p = f.positional_params()[1]
-    txt = ' ; '.join(unparse(s) for s in f.body)
-    m = re.search(rf'(\w+) = {p}\.get\(self\.name\)', txt) or re.search(rf'(\w+) = {p}\[self\.name\]', txt)
-    ok = m is not None and f'self.initValue = {m.group(1)}' in txt
-    stores = [unparse(n) for n in ast.walk(f.node) if isinstance(n, ast.Assign) and unparse(n.targets[0]).startswith('self.')]
-    ok = ok and stores == [f'self.initValue = {m.group(1)}']
-    ctx.add('C03.R2', 'Beta.change_init_values', ok, f, 'initValue = betas[self.name]; nothing else is written' if ok else f'update by name: {txt[:140]}', txt)
+    ok = has(f.node, f"""
+_V = {p}.get(self.name)
+if _V is not None and _V != self.initValue:
+    ___
+    self.initValue = _V
+""")
+    stores = [unparse(n.targets[0]) for n in ast.walk(f.node) if isinstance(n, ast.Assign) and unparse(n.targets[0]).startswith('self.')]
+    ok = ok and stores == ['self.initValue']
+    ctx.add('C03.R2', 'Beta.change_init_values', ok, f, 'initValue = betas[self.name]; nothing else is written' if ok else 'Beta.change_init_values no longer writes betas[self.name] (and only that) into initValue', 'change_init_values')
     f = beta.methods['fix_betas']
     p = f.positional_params()[1]
-    txt = unparse(f.node)
-    ok = f'if self.name in {p}:' in txt and f'self.initValue = {p}[self.name]' in txt and 'self.status = 1' in txt
+    ok = has(f.node, f"""
+if self.name in {p}:
+    self.initValue = {p}[self.name]
+    self.status = 1
+    ___
+""")
     ctx.add('C03.R2', 'Beta.fix_betas', ok, f, 'the parameter named in the dictionary gets its value and becomes fixed' if ok else 'fix_betas changed', 'fix_betas')
     E = prog.cls('expressions.base_expressions', 'Expression')
     for name, args in (('change_init_values', 'betas'), ('fix_betas', 'beta_values, prefix=prefix, suffix=suffix')):
         g = E.methods[name]
-        loops = [n for n in g.body if isinstance(n, ast.For)]
-        ok = len(loops) == 1 and unparse(loops[0].iter) in ('self.get_children()', 'self.children') and len(loops[0].body) == 1 and unparse(loops[0].body[0]) == f'{unparse(loops[0].target)}.{name}({args})'
-        ctx.add('C03.R2', f'Expression.{name}', ok, g, f'{name} reaches every child with the same dictionary' if ok else f'{name} does not recurse over all children', unparse(loops[0]) if loops else '')
+        ok = body_is(g.body, f'for _E in self.get_children():\n    _E.{name}({args})') is not None or body_is(g.body, f'for _E in self.children:\n    _E.{name}({args})') is not None
+        ctx.add('C03.R2', f'Expression.{name}', ok, g, f'{name} reaches every child with the same dictionary' if ok else f'{name} does not recurse over all children', name)
     # overrides of change_init_values / fix_betas other than Beta and MultipleExpression
     for name in ('change_init_values', 'fix_betas'):
         others = [c.name for c in prog.subclasses(E) if name in c.methods and c.name not in ('Beta', 'MultipleExpression')]
@@ -58,18 +66,21 @@ def run(ctx: Ctx) -> None:
     ctx.add('C03.R3', 'IdManager.__init__', ok, init, 'every normal exit of the constructor passes through prepare()' if ok else 'the constructor can finish without prepare()', 'prepare')
     prep = idm.methods['prepare']
     cfgp = cfg_of(prep.node)
-    tests = [n for n in walk_no_nested(prep.node) if isinstance(n, ast.If) and re.fullmatch(r'len\((\w+)\) != len\(set\(\1\)\)', unparse(n.test))]
-    ok = False
+    from ..pattern import find
+
+    b = find(prep.node, """
+_N = self.free_betas.names + self.fixed_betas.names + self.random_variables.names + self.draws.names + self.variables.names
+if len(_N) != len(set(_N)):
+    ___
+    raise BiogemeError(__MSG)
+""")
+    ok = b is not None
     det = ''
-    if len(tests) == 1:
-        t = tests[0]
-        var = re.fullmatch(r'len\((\w+)\) != len\(set\(\1\)\)', unparse(t.test)).group(1)
-        det = unparse(t.test)
-        raises = [x for x in t.body if isinstance(x, ast.Raise)]
-        ok = bool(raises) and 'BiogemeError' in unparse(raises[-1]) and var == 'elementary_expressions_names'
+    if ok:
+        tests = [n for n in walk_no_nested(prep.node) if isinstance(n, ast.If) and unparse(n.test) == f'len({b["_N"]}) != len(set({b["_N"]}))']
         pub = [n for n in walk_no_nested(prep.node) if isinstance(n, ast.Assign) and unparse(n.targets[0]) == 'self.elementary_expressions']
-        ok = ok and len(pub) == 1 and cfgp.dominates(cfgp.node_of(t), cfgp.node_of(pub[0]))
-    ctx.add('C03.R3', 'IdManager.prepare:duplicates', ok, prep, 'a name used twice (within or across kinds) raises BiogemeError before the index table is published' if ok else f'duplicate-name test: {det or "not found"}', det)
+        ok = len(tests) == 1 and len(pub) == 1 and cfgp.dominates(cfgp.node_of(tests[0]), cfgp.node_of(pub[0]))
+    ctx.add('C03.R3', 'IdManager.prepare:duplicates', ok, prep, 'a name used twice (within or across the five kinds) raises BiogemeError before the index table is published' if ok else 'the duplicate-name test (over the concatenation of all five kinds, raising BiogemeError) is missing or comes after the index table is published', 'duplicates')
 
 
 _I = 'src/biogeme/expressions/idmanager.py'
